@@ -254,32 +254,24 @@ class ExecBase:
 
     def s_AugAssign(self, node, st):
         load_t = ast.copy_location(_as_load(node.target), node.target)
-        if isinstance(node.op, ast.Add):
-            # `xs += ys` on a list extends it IN PLACE (every alias sees the change); only then is
-            # the name rebound to the same object
-            out = []
-            handled = True
-            for s, vals in self.ev_list([load_t, node.value], st):
-                if isinstance(vals, Raised):
-                    out.append((s, vals))
-                    continue
-                tv, rv = vals
-                if isinstance(tv, VRef) and isinstance(s.deref(tv), HList):
-                    for s2, r in self.call_value(s, VBuiltin("HList.extend", tv), [rv], {}):
-                        out.extend([(s2, r)] if isinstance(r, Raised) else self.assign(node.target, tv, s2))
-                else:
-                    handled = False
-                    break
-            if handled:
-                return out
-        binop = ast.BinOp(left=load_t, op=node.op, right=node.value)
-        ast.copy_location(binop, node)
+        # the operands are evaluated exactly once (a call on the right-hand side may have effects)
         out = []
-        for s, v in self.ev(binop, st):
-            if isinstance(v, Raised):
-                out.append((s, v))
-            else:
-                out.extend(self.assign(node.target, v, s))
+        for s, vals in self.ev_list([load_t, node.value], st):
+            if isinstance(vals, Raised):
+                out.append((s, vals))
+                continue
+            tv, rv = vals
+            if isinstance(node.op, ast.Add) and isinstance(tv, VRef) and isinstance(s.deref(tv), HList):
+                # `xs += ys` on a list extends it IN PLACE (every alias sees the change); only then is
+                # the name rebound to the same object
+                for s2, r in self.call_value(s, VBuiltin("HList.extend", tv), [rv], {}):
+                    out.extend([(s2, r)] if isinstance(r, Raised) else self.assign(node.target, tv, s2))
+                continue
+            for s2, v in self.binop(s, node.op, tv, rv, node):
+                if isinstance(v, Raised):
+                    out.append((s2, v))
+                else:
+                    out.extend(self.assign(node.target, v, s2))
         return out
 
     def assign(self, tgt, v: Val, st: State):
